@@ -204,6 +204,10 @@ pub fn gen(tier: &str, seed: u64, outdir: &str) {
     let thorough = tier == "thorough";
     // 1. every class x every order 1..=12 (quick: one matrix each; thorough: six each) + larger orders in thorough
     let reps = if thorough { 6 } else { 1 };
+    if !thorough {
+        // the last order of the quantifier (and 31 = 7 mod 8 for the unrolled dot) also at the quick tier (first, so that they share a shard with the smallest cases)
+        for (n, c) in [(32usize, 0usize), (32, 7), (31, 6)] { let a = gen_matrix(&mut r, n, c); emit_all(&mut cs, &mut r, &a, n, CLASSES[c]); }
+    }
     for n in 1..=12usize { for c in 0..CLASSES.len() { for _ in 0..reps {
         let a = gen_matrix(&mut r, n, c);
         emit_all(&mut cs, &mut r, &a, n, CLASSES[c]);
@@ -216,6 +220,26 @@ pub fn gen(tier: &str, seed: u64, outdir: &str) {
         }}
     } else {
         for n in [16usize, 17, 24] { for c in [0usize, 6, 7] { let a = gen_matrix(&mut r, n, c); emit_all(&mut cs, &mut r, &a, n, CLASSES[c]); } }
+    }
+    // matrices of the oracle's sweep that the fifteen classes never draw: column-graded, power-of-two scaled, Wilkinson's growth matrix, +-1 entries
+    // (ties in every pivot search), Hadamard blocks; SPD with a prescribed spectrum (condition number up to 1e8), min(i,j), second difference,
+    // Hilbert / Lehmer, scaled, equicorrelated; an exactly zero / exactly negative pivot at the first and the last position; equicorrelation below
+    // the bound; singular Gram matrices
+    let xorders: Vec<usize> = if thorough { (1..=12).chain([16usize, 31, 32]).collect() } else { vec![1, 8] };
+    for &n in &xorders {
+        for k in 0..XLU.len() { let a = gen_xlu(&mut r, n, k); emit_all(&mut cs, &mut r, &a, n, XLU[k]); }
+        for k in 0..XSPD.len() { let a = gen_xspd(&mut r, n, k); emit_all(&mut cs, &mut r, &a, n, XSPD[k]); }
+        for (k, m) in [(0usize, 0.0), (n - 1, 0.0), (n - 1, 1.0)] { let a = exact_nonpositive_pivot(&mut r, n, k, m); emit_all(&mut cs, &mut r, &a, n, "exact-nonpositive-pivot"); }
+        if n >= 2 {
+            let rho = -1.0 / (n - 1) as f64 - 0.05;
+            let a: Vec<f64> = (0..n * n).map(|q| if q / n == q % n { 1.0 } else { rho }).collect();
+            emit_all(&mut cs, &mut r, &a, n, "equicorrelated-below-the-bound");
+            let k = 1 + r.below(n as u64 - 1) as usize;
+            let b: Vec<f64> = (0..n * k).map(|_| r.small_int(3)).collect();
+            let mut g = vec![0.0; n * n];
+            for i in 0..n { for j in 0..n { let mut s = 0.0; for q in 0..k { s += b[i * k + q] * b[j * k + q]; } g[i * n + j] = s; } }
+            emit_all(&mut cs, &mut r, &g, n, "singular-gram");
+        }
     }
     // triangular solves: dense input to the slice forms (they never look at the other triangle), special values, -0.0 above the diagonal
     for n in 1..=(if thorough { 20usize } else { 10 }) {
@@ -238,6 +262,10 @@ pub fn gen(tier: &str, seed: u64, outdir: &str) {
         a[1] *= 3.0;
         emit_all(&mut cs, &mut r, &a, n, "tiny-scale-asymmetric");
     }
+    // an infinite diagonal entry passes the pivot test d > 0 (outside the property's quantifier: pinned for the model only)
+    emit_all(&mut cs, &mut r, &[f64::INFINITY], 1, "infinite-diagonal");
+    emit_all(&mut cs, &mut r, &[f64::INFINITY, 1.0, 1.0, 1.0], 2, "infinite-diagonal");
+    emit_all(&mut cs, &mut r, &[2.0, 1.0, 1.0, f64::INFINITY], 2, "infinite-diagonal");
     // 2. ipiv_parity: every permutation of 0..n
     for n in 0..=(if thorough { 7usize } else { 5 }) {
         for p in all_perms(n) {
@@ -313,7 +341,7 @@ pub fn gen(tier: &str, seed: u64, outdir: &str) {
         }
     }
     cs.write(outdir, if thorough { 60 } else { 150 },
-             "15 input classes (extreme-scale symmetric 1e-300..1e300, dense, integer, singular, rank-deficient, zero leading block, (scaled) permutation, every-column-pivots-on-next-row, SPD real/integer, symmetric indefinite with positive diagonal, special values NaN/inf/-0/subnormal/huge, graded rows, lower/upper triangular) x every order 1..12 (thorough: 6 matrices each and orders 13..32), each matrix seen through every entry point (slice and Matrix forms of lu, lu_solve, det, lu_det, solve, cholesky, cholesky_solve, forward/backward substitution, is_symmetric, is_positive_definite); every permutation of 0..n (n <= 5 quick, 7 thorough) and random permutations through ipiv_parity; empty slices; a malformed stream (non-square lengths, wrong right-hand-side lengths, bad pivot vectors, non-square / non-triangular Matrix receivers). Non-trivial = order >= 2 and (LU family: at least one row swap; Cholesky family / substitutions / predicates: order >= 2), a non-identity permutation, a panic in the malformed stream; distinct by hash of the case term");
+             "15 input classes + 16 named families shared with the oracle sweep (column-graded, power-of-two scaled, Wilkinson growth, +-1 entries, Hadamard blocks; SPD with prescribed spectrum up to condition 1e8, min(i,j), second difference, Hilbert/Lehmer, scaled, equicorrelated; exact zero / negative pivot at the first and last position; equicorrelation below the bound; singular Gram) at orders 1, 8 (thorough: 1..12, 16, 31, 32); orders 31 and 32 also at the quick tier; 15 classes = (extreme-scale symmetric 1e-300..1e300, dense, integer, singular, rank-deficient, zero leading block, (scaled) permutation, every-column-pivots-on-next-row, SPD real/integer, symmetric indefinite with positive diagonal, special values NaN/inf/-0/subnormal/huge, graded rows, lower/upper triangular) x every order 1..12 (thorough: 6 matrices each and orders 13..32), each matrix seen through every entry point (slice and Matrix forms of lu, lu_solve, det, lu_det, solve, cholesky, cholesky_solve, forward/backward substitution, is_symmetric, is_positive_definite); every permutation of 0..n (n <= 5 quick, 7 thorough) and random permutations through ipiv_parity; empty slices; a malformed stream (non-square lengths, wrong right-hand-side lengths, bad pivot vectors, non-square / non-triangular Matrix receivers). Non-trivial = order >= 2 and (LU family: at least one row swap; Cholesky family / substitutions / predicates: order >= 2), a non-identity permutation, a panic in the malformed stream; distinct by hash of the case term");
 }
 
 // ------------------------------------------------------------------------------------------------
@@ -399,6 +427,425 @@ fn check_tri(out: &mut Vec<Finding>, form: &str, t: &[f64], n: usize, lower: boo
         let res = s.add_f(-b[i]).val().abs();
         if res > 2.0 * (n as f64 + 1.0) * EPS * (mag + b[i].abs()) + 1e-300 { out.push(Finding { class: format!("{}:residual", form), what: format!("(T.x - b)[{}] = {:e}, allowed {:e}", i, res, 2.0 * (n as f64 + 1.0) * EPS * (mag + b[i].abs())), input: input.to_string() }); return; }
     }
+}
+
+
+// ------------------------------------------------------------------------------------------------
+// additional evaluation points (coverage audit against the property's quantifier: every order 1..32 for every class and entry point,
+// exact integer determinants at every order, genuinely ill-conditioned SPD input, rejection at every pivot position, Solve<Matrix> forms)
+
+impl DD {
+    fn mul_f(self, p: f64) -> DD { let (h, e) = two_prod(self.hi, p); let l = self.lo * p + e; let (s, t) = two_sum(h, l); DD { hi: s, lo: t } }
+}
+
+/// the twenty largest primes below 2^31 (products of two residues fit in u64)
+const PRIMES: [u64; 20] = [2147483647, 2147483629, 2147483587, 2147483579, 2147483563, 2147483549, 2147483543, 2147483497, 2147483489, 2147483477,
+    2147483423, 2147483399, 2147483353, 2147483323, 2147483269, 2147483249, 2147483237, 2147483179, 2147483171, 2147483137];
+fn powmod(mut b: u64, mut e: u64, p: u64) -> u64 { let mut r = 1u64; b %= p; while e > 0 { if e & 1 == 1 { r = r * b % p; } b = b * b % p; e >>= 1; } r }
+/// determinant of an integer matrix modulo the prime p (Gaussian elimination over GF(p))
+fn det_mod(a: &[f64], n: usize, p: u64) -> u64 {
+    let mut m: Vec<u64> = a.iter().map(|x| { assert!(x.fract() == 0.0 && x.abs() < 9.0e15); (*x as i64).rem_euclid(p as i64) as u64 }).collect();
+    let mut det = 1u64;
+    for c in 0..n {
+        let mut piv = None;
+        for i in c..n { if m[i * n + c] != 0 { piv = Some(i); break; } }
+        let i = match piv { None => return 0, Some(i) => i };
+        if i != c { for j in 0..n { m.swap(i * n + j, c * n + j); } det = (p - det) % p; }
+        det = det * m[c * n + c] % p;
+        let inv = powmod(m[c * n + c], p - 2, p);
+        for i in (c + 1)..n {
+            let f = m[i * n + c] * inv % p;
+            if f != 0 { for j in c..n { m[i * n + j] = (m[i * n + j] + p - f * m[c * n + j] % p) % p; } }
+        }
+    }
+    det
+}
+/// mixed-radix digits (Garner) of the number below prod p_i with the given residues
+fn garner(res: &[u64]) -> Vec<u64> {
+    let k = res.len(); let mut d = vec![0u64; k];
+    for i in 0..k {
+        let pi = PRIMES[i]; let mut t = res[i] % pi;
+        for j in 0..i { t = (t + pi - d[j] % pi) % pi * powmod(PRIMES[j] % pi, pi - 2, pi) % pi; }
+        d[i] = t;
+    }
+    d
+}
+/// exact determinant of an integer matrix (any order up to 32 and beyond), correctly rounded to about 1e-30 relative: residues modulo enough primes
+/// that the modulus exceeds 8 x the Hadamard bound, mixed-radix digits, sign read off the top digit, Horner evaluation in double-double
+fn exact_det(a: &[f64], n: usize) -> f64 {
+    if n == 0 { return 1.0; }
+    let h: f64 = (0..n).map(|i| (0..n).map(|j| a[i * n + j] * a[i * n + j]).sum::<f64>().sqrt()).product();
+    let mut k = 0; let mut m = 1.0f64;
+    while m <= 8.0 * h + 8.0 { m *= PRIMES[k] as f64; k += 1; }
+    let res: Vec<u64> = (0..k).map(|i| det_mod(a, n, PRIMES[i])).collect();
+    let mut d = garner(&res); let mut neg = false;
+    if d[k - 1] >= PRIMES[k - 1] / 2 { neg = true; let r2: Vec<u64> = (0..k).map(|i| (PRIMES[i] - res[i]) % PRIMES[i]).collect(); d = garner(&r2); }
+    let mut x = DD::zero().add_f(d[k - 1] as f64);
+    for i in (0..k - 1).rev() { x = x.mul_f(PRIMES[i] as f64).add_f(d[i] as f64); }
+    if neg { -x.val() } else { x.val() }
+}
+
+const XLU: [&str; 6] = ["column-graded", "power-of-two-scaled", "wilkinson-growth", "plus-minus-one", "orthogonal-rows-hadamard-blocks", "rank-deficient-real"];
+/// general matrices the random classes never draw
+fn gen_xlu(r: &mut Rng, n: usize, kind: usize) -> Vec<f64> {
+    let mut a = vec![0.0; n * n];
+    match kind {
+        0 => { let s: Vec<f64> = (0..n).map(|_| (10.0f64).powi(r.range(-8, 8) as i32)).collect(); for i in 0..n { for j in 0..n { a[i * n + j] = s[j] * r.uniform(-1.0, 1.0); } } }
+        1 => { let s = (2.0f64).powi(r.range(-200, 200) as i32); for x in a.iter_mut() { *x = s * r.uniform(-4.0, 4.0); } }
+        2 => { for i in 0..n { for j in 0..i { a[i * n + j] = -1.0; } a[i * n + i] = 1.0; a[i * n + n - 1] = 1.0; } } // element growth 2^(n-1) under partial pivoting
+        3 => for x in a.iter_mut() { *x = if r.coin(0.5) { 1.0 } else { -1.0 } }, // every pivot search meets ties
+        4 => return hadamard_blocks(r, n).0,
+        _ => { // real matrix of rank k < n: pivots of the order of the rounding errors
+            let k = if n >= 2 { 1 + r.below(n as u64 - 1) as usize } else { 0 };
+            let u: Vec<f64> = (0..n * k).map(|_| r.uniform(-2.0, 2.0)).collect(); let v: Vec<f64> = (0..n * k).map(|_| r.uniform(-2.0, 2.0)).collect();
+            for i in 0..n { for j in 0..n { for q in 0..k { a[i * n + j] += u[i * k + q] * v[j * k + q]; } } }
+        }
+    }
+    a
+}
+/// signed, scaled, row- and column-permuted direct sum of Sylvester-Hadamard blocks: rows are orthogonal, so the Hadamard bound equals |det| and
+/// the determinant tolerance is as sharp as it can be; the exact determinant is known by multiplicativity
+fn hadamard_blocks(r: &mut Rng, n: usize) -> (Vec<f64>, f64) {
+    let mut b = vec![0.0; n * n]; let mut det = 1.0f64; let mut o = 0;
+    while o < n {
+        let mut s = 1usize << r.below(6); while s > n - o { s >>= 1; }
+        let c = 1.0 + r.below(3) as f64;
+        for i in 0..s { for j in 0..s { b[(o + i) * n + o + j] = if (i & j).count_ones() % 2 == 0 { c } else { -c }; } }
+        det *= match s { 1 => 1.0, 2 => -2.0, _ => (s as f64).powi(s as i32 / 2) };
+        for _ in 0..s { det *= c; }
+        o += s;
+    }
+    for i in 0..n { if r.coin(0.5) { for j in 0..n { b[i * n + j] = -b[i * n + j]; } det = -det; } }
+    let (pr, pc) = (perm(r, n), perm(r, n));
+    let mut a = vec![0.0; n * n];
+    for i in 0..n { for j in 0..n { a[i * n + j] = b[pr[i] * n + pc[j]]; } }
+    let sg = |p: &[usize]| sign_by_cycles(&p.iter().map(|x| *x as i32).collect::<Vec<i32>>()) as f64;
+    (a, det * sg(&pr) * sg(&pc))
+}
+
+const XSPD: [&str; 6] = ["spd-spectrum-cond-up-to-1e8", "spd-min-ij", "spd-second-difference", "spd-hilbert-or-lehmer", "spd-power-of-two-scaled", "spd-equicorrelated"];
+/// positive definite matrices the random classes never draw: a prescribed spectrum 1 .. 10^-c (c up to 8) in a random orthogonal basis (the
+/// condition number of the quantifier, not removable by diagonal scaling), classical test matrices, extreme-but-harmless scalings
+fn gen_xspd(r: &mut Rng, n: usize, kind: usize) -> Vec<f64> {
+    let mut a = vec![0.0; n * n];
+    match kind {
+        0 => {
+            let c = if r.coin(0.3) { 8.0 } else { r.uniform(0.0, 8.0) }; let sc = (10.0f64).powi(r.range(-3, 3) as i32);
+            let lam: Vec<f64> = (0..n).map(|k| if n == 1 { sc } else { sc * (10.0f64).powf(-c * k as f64 / (n - 1) as f64) }).collect();
+            let mut q = vec![0.0; n * n]; for i in 0..n { q[i * n + i] = 1.0; }
+            for _ in 0..2 { // two Householder reflectors
+                let v: Vec<f64> = (0..n).map(|_| r.uniform(-1.0, 1.0)).collect(); let vv: f64 = v.iter().map(|x| x * x).sum();
+                if vv == 0.0 { continue; }
+                for i in 0..n { let mut s = 0.0; for k in 0..n { s += q[i * n + k] * v[k]; } for k in 0..n { q[i * n + k] -= 2.0 * s * v[k] / vv; } }
+            }
+            for i in 0..n { for j in 0..=i { let mut s = 0.0; for k in 0..n { s += q[i * n + k] * lam[k] * q[j * n + k]; } a[i * n + j] = s; a[j * n + i] = s; } }
+        }
+        1 => for i in 0..n { for j in 0..n { a[i * n + j] = (i.min(j) + 1) as f64; } }, // factor = all ones, exactly
+        2 => for i in 0..n { a[i * n + i] = 2.0; if i + 1 < n { a[i * n + i + 1] = -1.0; a[(i + 1) * n + i] = -1.0; } },
+        3 => for i in 0..n { for j in 0..n { a[i * n + j] = if n <= 6 { 1.0 / (i + j + 1) as f64 } else { (i.min(j) + 1) as f64 / (i.max(j) + 1) as f64 }; } }, // Hilbert: cond 1.5e7 at order 6
+        4 => { a = gen_matrix(r, n, 7); let s = (2.0f64).powi(2 * r.range(-200, 200) as i32); for x in a.iter_mut() { *x *= s; } }
+        _ => { let rho = if n == 1 { 0.0 } else if r.coin(0.5) { r.uniform(0.0, 0.999) } else { -0.9 / (n - 1) as f64 }; for i in 0..n { for j in 0..n { a[i * n + j] = if i == j { 1.0 } else { rho }; } } }
+    }
+    a
+}
+
+/// symmetric integer matrix whose Cholesky sweep is exact in binary64 and meets the pivot -m <= 0 exactly at position k (rows 0..k-1 of the factor are
+/// the integer rows of a known L): not positive definite by construction, with nothing left to rounding
+fn exact_nonpositive_pivot(r: &mut Rng, n: usize, k: usize, m: f64) -> Vec<f64> {
+    let mut l = vec![0.0; n * n];
+    for i in 0..n { for j in 0..i { l[i * n + j] = r.small_int(2); } l[i * n + i] = 1.0 + r.below(3) as f64; }
+    let mut a = vec![0.0; n * n];
+    for i in 0..n { for j in 0..=i { let mut s = 0.0; for q in 0..=j { s += l[i * n + q] * l[j * n + q]; } a[i * n + j] = s; a[j * n + i] = s; } }
+    a[k * n + k] -= l[k * n + k] * l[k * n + k] + m;
+    a
+}
+
+/// residual of lu_solve's answer: row i of (L.U.x - P.b) against 8(n+1)u(|L||U||x| + |P.b|)
+fn lu_solution_defect(l: &[f64], p: &[i32], n: usize, x: &[f64], b: &[f64]) -> Option<(usize, f64, f64)> {
+    for i in 0..n {
+        let mut s = DD::zero(); let mut mag = 0.0;
+        for k in 0..n { for m in 0..=i.min(k) { let lim = if m == i { 1.0 } else { l[i * n + m] }; let t = lim * l[m * n + k]; let (q, e) = two_prod(t, x[k]); s = s.add_f(q).add_f(e); mag += (t * x[k]).abs(); } }
+        let res = s.add_f(-b[p[i] as usize]).val().abs();
+        if res > 8.0 * (n as f64 + 1.0) * EPS * (mag + b[p[i] as usize].abs()) + 1e-300 { return Some((i, res, mag)); }
+    }
+    None
+}
+/// residual of cholesky_solve's answer: row i of (L.L^T.x - b) against 8(n+1)u(|L||L^T||x| + |b|)
+fn chol_solution_defect(l: &[f64], n: usize, x: &[f64], b: &[f64]) -> Option<(usize, f64, f64)> {
+    for i in 0..n {
+        let mut s = DD::zero(); let mut mag = 0.0;
+        for k in 0..n { for m in 0..=i.min(k) { let t = l[i * n + m] * l[k * n + m]; let (q, e) = two_prod(t, x[k]); s = s.add_f(q).add_f(e); mag += (t * x[k]).abs(); } }
+        let res = s.add_f(-b[i]).val().abs();
+        if res > 8.0 * (n as f64 + 1.0) * EPS * (mag + b[i].abs()) + 1e-300 { return Some((i, res, mag)); }
+    }
+    None
+}
+fn column(m: &Matrix, c: usize) -> Vec<f64> { (0..m.nrows).map(|i| m.data[i * m.ncols + c]).collect() }
+
+/// LU family on one square matrix: structure and reconstruction (slice form), bitwise equality of the Matrix form, determinant = signed product of
+/// U's diagonal (Matrix::det, Matrix::lu_det), and every solve form -- Vector and Matrix right-hand sides -- when U's diagonal is safely nonzero
+fn probe_lu(out: &mut Vec<Finding>, tried: &mut u64, r: &mut Rng, a: &[f64], n: usize, cname: &str) {
+    let input = format!("class={} n={} a={}", cname, n, json_floats(a));
+    *tried += 2;
+    crumb(&format!("lu / Matrix::lu / det / lu_det / lu_solve / Matrix::solve {}", input));
+    let res = catch(|| lu(a));
+    match &res { Ok((l, p)) => check_lu(out, "lu", a, n, l, p, &input), Err(e) => out.push(Finding { class: "lu:panics-on-square-input".into(), what: e.clone(), input: input.clone() }) }
+    let resm = catch(|| { let (l, p) = mk(a, n, n).lu(); (l.data.v.clone(), p) });
+    match (&res, &resm) {
+        (Ok((l, p)), Ok((lm, pm))) => { if l.iter().map(|x| x.to_bits()).ne(lm.iter().map(|x| x.to_bits())) || p != pm { out.push(Finding { class: "Matrix::lu:differs-from-slice-lu".into(), what: "slice and Matrix LU return different factors (same algorithm: must be identical)".into(), input: input.clone() }); } }
+        (_, Err(e)) => out.push(Finding { class: "Matrix::lu:panics-on-square-input".into(), what: e.clone(), input: input.clone() }),
+        _ => {}
+    }
+    let (l, p) = match &res { Ok(x) => x, Err(_) => return };
+    if !finite(l) || !is_permutation(p) || l.len() != n * n { return; }
+    // the determinant is the signed product of U's diagonal (no partial product can leave the normal range: sum of |exponents| < 900)
+    let diag: Vec<f64> = (0..n).map(|i| l[i * n + i]).collect();
+    let expsum: i64 = diag.iter().filter(|u| **u != 0.0).map(|u| { let e = ((u.to_bits() >> 52) & 0x7ff) as i64; if e == 0 { 2000 } else { (e - 1023).abs() + 1 } }).sum();
+    if expsum < 900 {
+        let want = diag.iter().fold(1.0, |m, u| m * u) * sign_by_cycles(p) as f64;
+        for (form, d) in [("Matrix::det", catch(|| mk(a, n, n).det())), ("Matrix::lu_det", catch(|| mk(l, n, n).lu_det(p)))] {
+            *tried += 1;
+            match d {
+                Err(e) => out.push(Finding { class: format!("{}:panics-on-square-input", form), what: e, input: input.clone() }),
+                Ok(d) => if !((d - want).abs() <= 4.0 * (n as f64 + 1.0) * EPS * want.abs()) {
+                    let class = if (d + want).abs() <= 4.0 * (n as f64 + 1.0) * EPS * want.abs() { "wrong-sign" } else { "not-the-signed-product-of-U-diagonal" };
+                    out.push(Finding { class: format!("{}:{}", form, class), what: format!("returned {:e}, sign(P) x product of U's diagonal = {:e}", d, want), input: input.clone() });
+                }
+            }
+        }
+    }
+    // solves
+    let dmin = diag.iter().fold(f64::INFINITY, |m, u| m.min(u.abs()));
+    let umax = l.iter().fold(0.0f64, |m, x| m.max(x.abs()));
+    if !(dmin > 1e-6 * umax) { return; }
+    let b = rhs(r, n);
+    for (form, x) in [("lu_solve", catch(|| lu_solve(l, p, &b))), ("Matrix::lu_solve", catch(|| mk(l, n, n).lu_solve(p, &Vector::new(b.clone())).v)), ("Matrix::solve", catch(|| mk(a, n, n).solve(&Vector::new(b.clone())).v))] {
+        *tried += 1;
+        match x {
+            Err(e) => out.push(Finding { class: format!("{}:panics-on-valid-input", form), what: e, input: input.clone() }),
+            Ok(x) => {
+                if x.len() != n || !finite(&x) { out.push(Finding { class: format!("{}:nonfinite-solution-of-regular-system", form), what: format!("x = {:?}", x), input: format!("{} b={}", input, json_floats(&b)) }); continue; }
+                if let Some((i, res, mag)) = lu_solution_defect(l, p, n, &x, &b) { out.push(Finding { class: format!("{}:residual", form), what: format!("(L.U.x - P.b)[{}] = {:e} with |L||U||x| = {:e}", i, res, mag), input: format!("{} b={}", input, json_floats(&b)) }); }
+            }
+        }
+    }
+    // Solve<Matrix>: k right-hand sides at once (column 0 is b)
+    let k = 1 + r.below(3) as usize;
+    let mut s = vec![0.0; n * k]; for i in 0..n { s[i * k] = b[i]; for c in 1..k { s[i * k + c] = r.small_int(9); } }
+    for (form, xs) in [("Matrix::lu_solve(Matrix)", catch(|| mk(l, n, n).lu_solve(p, &mk(&s, n, k)))), ("Matrix::solve(Matrix)", catch(|| mk(a, n, n).solve(&mk(&s, n, k))))] {
+        *tried += 1;
+        let inp = format!("{} rhs({}x{})={}", input, n, k, json_floats(&s));
+        match xs {
+            Err(e) => out.push(Finding { class: format!("{}:panics-on-valid-input", form), what: e, input: inp }),
+            Ok(xs) => {
+                if xs.nrows != n || xs.ncols != k || xs.data.len() != n * k { out.push(Finding { class: format!("{}:shape", form), what: format!("result is {}x{} for {} right-hand sides of length {}", xs.nrows, xs.ncols, k, n), input: inp }); continue; }
+                for c in 0..k {
+                    let (x, bc) = (column(&xs, c), (0..n).map(|i| s[i * k + c]).collect::<Vec<f64>>());
+                    if !finite(&x) { out.push(Finding { class: format!("{}:nonfinite-solution-of-regular-system", form), what: format!("column {} = {:?}", c, x), input: inp.clone() }); break; }
+                    if let Some((i, res, mag)) = lu_solution_defect(l, p, n, &x, &bc) { out.push(Finding { class: format!("{}:residual", form), what: format!("column {}: (L.U.x - P.b)[{}] = {:e} with |L||U||x| = {:e}", c, i, res, mag), input: inp.clone() }); break; }
+                }
+            }
+        }
+    }
+}
+
+/// Matrix::det and Matrix::lu_det of an integer matrix against its exact determinant (tolerance 1e-9 x Hadamard bound, as for the small orders)
+fn probe_det_exact(out: &mut Vec<Finding>, tried: &mut u64, a: &[f64], n: usize, exact: f64, cname: &str) {
+    let h: f64 = (0..n).map(|i| (0..n).map(|j| a[i * n + j] * a[i * n + j]).sum::<f64>().sqrt()).product();
+    let inp = format!("class={} n={} a={}", cname, n, json_floats(a));
+    *tried += 2;
+    crumb(&format!("Matrix::det / Matrix::lu_det {}", inp));
+    let tol = 1e-9 * h + 1e-300;
+    for (form, d) in [("Matrix::det", catch(|| mk(a, n, n).det())), ("Matrix::lu_det", catch(|| { let (l, p) = mk(a, n, n).lu(); l.lu_det(&p) }))] {
+        match d {
+            Err(e) => out.push(Finding { class: format!("{}:panics-on-square-input", form), what: e, input: inp.clone() }),
+            Ok(d) => if !((d - exact).abs() <= tol) {
+                let class = if (d + exact).abs() <= tol { "wrong-sign" } else { "wrong-value" };
+                out.push(Finding { class: format!("{}:{}", form, class), what: format!("returned {:e}, exact integer determinant is {:e}", d, exact), input: inp.clone() });
+            }
+        }
+    }
+}
+
+/// Cholesky family on one positive definite matrix: acceptance, structure, reconstruction, agreement of the forms, every solve form
+fn probe_spd(out: &mut Vec<Finding>, tried: &mut u64, r: &mut Rng, s: &[f64], ns: usize, cname: &str, tolf: f64) {
+    let inp = format!("class={} n={} a={}", cname, ns, json_floats(s));
+    *tried += 2;
+    crumb(&format!("cholesky / Matrix::cholesky / cholesky_solve {}", inp));
+    let l1 = catch(|| cholesky(s)); let l2 = catch(|| mk(s, ns, ns).cholesky().data.v.clone());
+    match &l1 { Ok(l) => check_chol(out, "cholesky", s, ns, l, &inp), Err(e) => out.push(Finding { class: "cholesky:panics-on-spd-input".into(), what: e.clone(), input: inp.clone() }) }
+    match (catch(|| try_cholesky(s)), &l1) {
+        (Ok(Some(t)), Ok(l)) => if t.iter().map(|x| x.to_bits()).ne(l.iter().map(|x| x.to_bits())) { out.push(Finding { class: "try_cholesky:differs-from-cholesky".into(), what: "try_cholesky and cholesky return different factors".into(), input: inp.clone() }) },
+        (Ok(None), _) => out.push(Finding { class: "try_cholesky:rejects-spd-input".into(), what: "try_cholesky returned None for an SPD matrix".into(), input: inp.clone() }),
+        (Err(e), _) => out.push(Finding { class: "try_cholesky:panics-on-spd-input".into(), what: e, input: inp.clone() }),
+        _ => {}
+    }
+    match &l2 { Ok(l) => check_chol(out, "Matrix::cholesky", s, ns, l, &inp), Err(e) => out.push(Finding { class: "Matrix::cholesky:panics-on-spd-input".into(), what: e.clone(), input: inp.clone() }) }
+    let (a1, a2) = match (&l1, &l2) { (Ok(a), Ok(b)) => (a, b), _ => return };
+    if a1.len() != ns * ns || !finite(a1) { return; }
+    let m = a1.iter().fold(0.0f64, |m, x| m.max(x.abs()));
+    if a1.len() == a2.len() { for k in 0..a1.len() { if (a1[k] - a2[k]).abs() > tolf * m { out.push(Finding { class: "cholesky:slice-and-Matrix-factors-differ".into(), what: format!("entry {} differs: {:e} vs {:e}", k, a1[k], a2[k]), input: inp.clone() }); break; } } }
+    let b = rhs(r, ns);
+    for (form, x) in [("cholesky_solve", catch(|| cholesky_solve(a1, &b))), ("Matrix::cholesky_solve", catch(|| mk(a1, ns, ns).cholesky_solve(&Vector::new(b.clone())).v))] {
+        *tried += 1;
+        match x {
+            Err(e) => out.push(Finding { class: format!("{}:panics-on-valid-input", form), what: e, input: inp.clone() }),
+            Ok(x) => {
+                if x.len() != ns || !finite(&x) { out.push(Finding { class: format!("{}:nonfinite-solution-of-regular-system", form), what: format!("x = {:?}", x), input: inp.clone() }); continue; }
+                if let Some((i, res, mag)) = chol_solution_defect(a1, ns, &x, &b) { out.push(Finding { class: format!("{}:residual", form), what: format!("(L.L^T.x - b)[{}] = {:e} with |L||L^T||x| = {:e}", i, res, mag), input: format!("{} b={}", inp, json_floats(&b)) }); }
+            }
+        }
+    }
+    let k = 1 + r.below(3) as usize;
+    let mut sy = vec![0.0; ns * k]; for i in 0..ns { sy[i * k] = b[i]; for c in 1..k { sy[i * k + c] = r.small_int(9); } }
+    *tried += 1;
+    let inp2 = format!("{} rhs({}x{})={}", inp, ns, k, json_floats(&sy));
+    match catch(|| mk(a1, ns, ns).cholesky_solve(&mk(&sy, ns, k))) {
+        Err(e) => out.push(Finding { class: "Matrix::cholesky_solve(Matrix):panics-on-valid-input".into(), what: e, input: inp2 }),
+        Ok(xs) => {
+            if xs.nrows != ns || xs.ncols != k || xs.data.len() != ns * k { out.push(Finding { class: "Matrix::cholesky_solve(Matrix):shape".into(), what: format!("result is {}x{} for {} right-hand sides of length {}", xs.nrows, xs.ncols, k, ns), input: inp2 }); return; }
+            for c in 0..k {
+                let (x, bc) = (column(&xs, c), (0..ns).map(|i| sy[i * k + c]).collect::<Vec<f64>>());
+                if !finite(&x) { out.push(Finding { class: "Matrix::cholesky_solve(Matrix):nonfinite-solution-of-regular-system".into(), what: format!("column {} = {:?}", c, x), input: inp2.clone() }); break; }
+                if let Some((i, res, mag)) = chol_solution_defect(a1, ns, &x, &bc) { out.push(Finding { class: "Matrix::cholesky_solve(Matrix):residual".into(), what: format!("column {}: (L.L^T.x - b)[{}] = {:e} with |L||L^T||x| = {:e}", c, i, res, mag), input: inp2.clone() }); break; }
+            }
+        }
+    }
+}
+
+/// a symmetric matrix that is not positive definite must be rejected by all three Cholesky entry points
+fn probe_not_pd(out: &mut Vec<Finding>, tried: &mut u64, a3: &[f64], n3: usize, cname: &str) {
+    let inp = format!("class={} n={} a={}", cname, n3, json_floats(a3));
+    *tried += 3; crumb(&format!("cholesky / try_cholesky / Matrix::cholesky of a matrix that is not positive definite {}", inp));
+    if let Ok(l) = catch(|| cholesky(a3)) { out.push(Finding { class: if finite(&l) { "cholesky:accepts-input-that-is-not-positive-definite".into() } else { "cholesky:nonfinite-factor-for-input-that-is-not-positive-definite".into() }, what: format!("cholesky returned a factor (finite: {}) for a symmetric matrix that is not positive definite", finite(&l)), input: inp.clone() }); }
+    match catch(|| try_cholesky(a3)) { Ok(Some(l)) => out.push(Finding { class: "try_cholesky:accepts-input-that-is-not-positive-definite".into(), what: format!("try_cholesky returned Some (finite: {})", finite(&l)), input: inp.clone() }), Ok(None) => {}, Err(e) => out.push(Finding { class: "try_cholesky:panics-on-symmetric-input".into(), what: e, input: inp.clone() }) }
+    if let Ok(l) = catch(|| mk(a3, n3, n3).cholesky().data.v.clone()) { out.push(Finding { class: if finite(&l) { "Matrix::cholesky:accepts-input-that-is-not-positive-definite".into() } else { "Matrix::cholesky:nonfinite-factor-for-input-that-is-not-positive-definite".into() }, what: format!("Matrix::cholesky returned a factor (finite: {})", finite(&l)), input: inp.clone() }); }
+}
+
+/// whatever a Cholesky entry point returns for a finite symmetric matrix is finite, lower triangular, with a positive diagonal
+fn probe_factor_structure(out: &mut Vec<Finding>, tried: &mut u64, a4: &[f64], n4: usize, cname: &str) {
+    let inp = format!("class={} n={} a={}", cname, n4, json_floats(a4));
+    *tried += 3; crumb(&format!("cholesky / try_cholesky / Matrix::cholesky near the boundary of positive definiteness {}", inp));
+    let bad = |l: &[f64]| !(l.len() == n4 * n4 && finite(l) && (0..n4).all(|i| l[i * n4 + i] > 0.0 && (i + 1..n4).all(|j| l[i * n4 + j] == 0.0)));
+    if let Ok(Some(l)) = catch(|| try_cholesky(a4)) { if bad(&l) { out.push(Finding { class: "try_cholesky:factor-not-finite-lower-triangular-positive-diagonal".into(), what: format!("try_cholesky returned Some({:?})", l), input: inp.clone() }); } }
+    if let Ok(l) = catch(|| cholesky(a4)) { if bad(&l) { out.push(Finding { class: "cholesky:factor-not-finite-lower-triangular-positive-diagonal".into(), what: format!("cholesky returned {:?}", l), input: inp.clone() }); } }
+    if let Ok(l) = catch(|| mk(a4, n4, n4).cholesky().data.v.clone()) { if bad(&l) { out.push(Finding { class: "Matrix::cholesky:factor-not-finite-lower-triangular-positive-diagonal".into(), what: format!("Matrix::cholesky returned {:?}", l), input: inp.clone() }); } }
+}
+
+/// the four triangular solves on one lower and one upper triangular system
+fn probe_tri(out: &mut Vec<Finding>, tried: &mut u64, lo: &[f64], up: &[f64], b: &[f64], nt: usize) {
+    let inl = format!("n={} l={} b={}", nt, json_floats(lo), json_floats(b));
+    let inu = format!("n={} u={} b={}", nt, json_floats(up), json_floats(b));
+    *tried += 4;
+    crumb(&format!("forward_substitution (slice, Matrix) {} ; backward_substitution (slice, Matrix) {}", inl, inu));
+    match catch(|| forward_substitution(lo, b)) { Ok(x) => check_tri(out, "forward_substitution", lo, nt, true, &x, b, &inl), Err(e) => out.push(Finding { class: "forward_substitution:panics-on-valid-input".into(), what: e, input: inl.clone() }) }
+    match catch(|| mk(lo, nt, nt).forward_substitution(b).v) { Ok(x) => check_tri(out, "Matrix::forward_substitution", lo, nt, true, &x, b, &inl), Err(e) => out.push(Finding { class: "Matrix::forward_substitution:panics-on-valid-input".into(), what: e, input: inl.clone() }) }
+    match catch(|| backward_substitution(up, b)) { Ok(x) => check_tri(out, "backward_substitution", up, nt, false, &x, b, &inu), Err(e) => out.push(Finding { class: "backward_substitution:panics-on-valid-input".into(), what: e, input: inu.clone() }) }
+    match catch(|| mk(up, nt, nt).backward_substitution(b).v) { Ok(x) => check_tri(out, "Matrix::backward_substitution", up, nt, false, &x, b, &inu), Err(e) => out.push(Finding { class: "Matrix::backward_substitution:panics-on-valid-input".into(), what: e, input: inu.clone() }) }
+}
+
+/// the sweep: every order 1..=32 (first and last included) x every class x every entry point, `reps` matrices each
+fn oracle_sweep(out: &mut Vec<Finding>, tried: &mut u64, r: &mut Rng, reps: usize) {
+    for n in 1..=32usize { for _ in 0..reps {
+        if out.len() > 30 { return; }
+        // LU family: the random classes and the extra ones
+        for c in [0usize, 1, 2, 3, 4, 5, 6, 9, 11, 12, 13] {
+            let a = gen_matrix(r, n, c);
+            probe_lu(out, tried, r, &a, n, CLASSES[c]);
+            if [1usize, 2, 3, 4, 5, 6].contains(&c) { let e = exact_det(&a, n); probe_det_exact(out, tried, &a, n, e, CLASSES[c]); }
+        }
+        for k in 0..XLU.len() {
+            let (a, known) = if k == 4 { let (a, d) = hadamard_blocks(r, n); (a, Some(d)) } else { (gen_xlu(r, n, k), None) };
+            probe_lu(out, tried, r, &a, n, XLU[k]);
+            if (2..=4).contains(&k) {
+                let e = exact_det(&a, n);
+                if let Some(d) = known { if d != e { out.push(Finding { class: "oracle:reference-determinants-disagree".into(), what: format!("multiplicativity gives {:e}, modular elimination gives {:e}", d, e), input: format!("n={} a={}", n, json_floats(&a)) }); } }
+                probe_det_exact(out, tried, &a, n, e, XLU[k]);
+            }
+        }
+        // Cholesky family: acceptance
+        for c in [7usize, 8] { let s = gen_matrix(r, n, c); probe_spd(out, tried, r, &s, n, CLASSES[c], if c == 8 { 1e-9 } else { 1e-5 }); }
+        { // graded congruence of a random SPD matrix (as in the random search)
+            let mut s = gen_matrix(r, n, 7);
+            let d: Vec<f64> = (0..n).map(|_| (2.0f64).powi(r.range(-13, 13) as i32)).collect();
+            for i in 0..n { for j in 0..n { s[i * n + j] *= d[i] * d[j]; } }
+            probe_spd(out, tried, r, &s, n, "spd-real-graded-congruence", 1e-5);
+        }
+        for k in 0..XSPD.len() { let s = gen_xspd(r, n, k); probe_spd(out, tried, r, &s, n, XSPD[k], if k == 1 || k == 2 { 1e-9 } else { 1e-5 }); }
+        // Cholesky family: rejection at the first, the last and a random pivot (exactly zero and exactly negative pivots)
+        for k in [0usize, n - 1, r.below(n as u64) as usize] { for m in [0.0, 1.0, 5.0] {
+            let a = exact_nonpositive_pivot(r, n, k, m);
+            probe_not_pd(out, tried, &a, n, &format!("exact-pivot-{}-at-position-{}", -m, k));
+        }}
+        if n >= 2 {
+            // equicorrelation below the bound -1/(n-1): every 2x2 minor is positive (n >= 3), smallest eigenvalue -0.05(n-1)
+            let rho = -1.0 / (n - 1) as f64 - 0.05;
+            let a: Vec<f64> = (0..n * n).map(|q| if q / n == q % n { 1.0 } else { rho }).collect();
+            probe_not_pd(out, tried, &a, n, "equicorrelated-below-the-bound");
+            // class 9 / 8 with a negative 2x2 minor or a non-positive diagonal entry at the first / last index
+            for (p, q) in [(0usize, n - 1), (n - 1, 0), (n - 2, n - 1)] {
+                let c3 = if r.coin(0.5) { 9 } else { 8 };
+                let mut a3 = gen_matrix(r, n, c3);
+                if r.coin(0.7) { let v = 2.0 * (a3[p * n + p] * a3[q * n + q]).abs().sqrt() + 1.0; a3[p * n + q] = v; a3[q * n + p] = v; } else { a3[p * n + p] = if r.coin(0.5) { 0.0 } else { -1.0 - r.unit() }; }
+                probe_not_pd(out, tried, &a3, n, "negative-2x2-minor-or-nonpositive-diagonal-at-the-border");
+            }
+            // singular positive semi-definite Gram matrix B.B^T, B n x k, k < n (exact integers): rejection or a finite, well-formed factor
+            let k = 1 + r.below(n as u64 - 1) as usize;
+            let b: Vec<f64> = (0..n * k).map(|_| r.small_int(3)).collect();
+            let mut g = vec![0.0; n * n];
+            for i in 0..n { for j in 0..n { let mut s = 0.0; for q in 0..k { s += b[i * k + q] * b[j * k + q]; } g[i * n + j] = s; } }
+            probe_factor_structure(out, tried, &g, n, "singular-gram");
+        }
+        probe_factor_structure(out, tried, &gen_matrix(r, n, 14), n, CLASSES[14]);
+        // triangular solves: moderate, row-graded (1e-8 .. 1e8) and exact integer systems with a unit diagonal
+        let b = rhs(r, n);
+        let mut lo = gen_matrix(r, n, 12); let mut up = gen_matrix(r, n, 13);
+        for i in 0..n { if lo[i * n + i].abs() < 0.5 { lo[i * n + i] = 1.0 + r.unit(); } if up[i * n + i].abs() < 0.5 { up[i * n + i] = -1.0 - r.unit(); } }
+        probe_tri(out, tried, &lo, &up, &b, n);
+        for i in 0..n { let (s, t) = ((10.0f64).powi(r.range(-8, 8) as i32), (10.0f64).powi(r.range(-8, 8) as i32)); for j in 0..n { lo[i * n + j] *= s; up[i * n + j] *= t; } }
+        probe_tri(out, tried, &lo, &up, &b, n);
+        let mut li = vec![0.0; n * n]; let mut ui = vec![0.0; n * n];
+        for i in 0..n { for j in 0..i { li[i * n + j] = r.small_int(1); ui[j * n + i] = r.small_int(1); } li[i * n + i] = if r.coin(0.5) { 1.0 } else { -1.0 }; ui[i * n + i] = if r.coin(0.5) { 1.0 } else { -1.0 }; }
+        probe_tri(out, tried, &li, &ui, &b, n);
+        // pivot vectors of this length: identity, reversal, the two n-cycles, a transposition at the first / last position, random ones
+        let id: Vec<i32> = (0..n as i32).collect();
+        let mut ps: Vec<Vec<i32>> = vec![id.clone(), id.iter().rev().cloned().collect(), (0..n).map(|i| ((i + 1) % n) as i32).collect(), (0..n).map(|i| ((i + n - 1) % n) as i32).collect()];
+        if n >= 2 { let mut t = id.clone(); t.swap(0, 1); ps.push(t); let mut t = id.clone(); t.swap(n - 2, n - 1); ps.push(t); let mut t = id.clone(); t.swap(0, n - 1); ps.push(t); }
+        for _ in 0..6 { ps.push(perm(r, n).iter().map(|x| *x as i32).collect()); }
+        for p in ps {
+            *tried += 1; crumb(&format!("ipiv_parity ipiv={:?}", p));
+            let got = catch(|| ipiv_parity(&p)); let want = sign_by_cycles(&p);
+            if got != Ok(want) { out.push(Finding { class: "ipiv_parity:not-the-sign-of-the-permutation".into(), what: format!("ipiv_parity returned {:?}, the permutation has sign {}", got, want), input: format!("ipiv={:?}", p) }); break; }
+        }
+        // rejection: asymmetry at a random / the last mirrored pair; right-hand sides one too short, one too long, empty; lengths that are not squares
+        if n >= 2 {
+            for (i, j) in [(n - 2, n - 1), { let i = r.below(n as u64 - 1) as usize; (i, i + 1 + r.below((n - i - 1) as u64) as usize) }] {
+                let mut a2 = gen_matrix(r, n, 8); a2[i * n + j] += 1.0;
+                *tried += 3; crumb(&format!("rejection: cholesky / try_cholesky / Matrix::cholesky of a non-symmetric matrix n={} a={}", n, json_floats(&a2)));
+                if catch(|| cholesky(&a2)).is_ok() || catch(|| try_cholesky(&a2)).is_ok() { out.push(Finding { class: "cholesky:accepts-nonsymmetric-input".into(), what: format!("cholesky or try_cholesky returned for a matrix with a[{}][{}] != a[{}][{}]", i, j, j, i), input: format!("a={}", json_floats(&a2)) }); }
+                if catch(|| mk(&a2, n, n).cholesky()).is_ok() { out.push(Finding { class: "Matrix::cholesky:accepts-nonsymmetric-input".into(), what: format!("Matrix::cholesky returned a factor for a matrix with a[{}][{}] != a[{}][{}]", i, j, j, i), input: format!("a={}", json_floats(&a2)) }); }
+            }
+        }
+        let sq = { let mut t = gen_matrix(r, n, 12); for i in 0..n { t[i * n + i] = 2.0; } t };
+        let idp: Vec<i32> = (0..n as i32).collect();
+        for lb in [n - 1, n + 1, 0] {
+            if lb == n { continue; }
+            let bad = rhs(r, lb);
+            *tried += 8; crumb(&format!("rejection: right-hand side of length {} for order {}", lb, n));
+            let accepted: Vec<&str> = [
+                ("forward_substitution", catch(|| forward_substitution(&sq, &bad)).is_ok()), ("backward_substitution", catch(|| backward_substitution(&transpose_sq(&sq, n), &bad)).is_ok()),
+                ("cholesky_solve", catch(|| cholesky_solve(&sq, &bad)).is_ok()), ("lu_solve", catch(|| lu_solve(&sq, &idp, &bad)).is_ok()),
+                ("Matrix::forward_substitution", catch(|| mk(&sq, n, n).forward_substitution(&bad)).is_ok()), ("Matrix::backward_substitution", catch(|| mk(&transpose_sq(&sq, n), n, n).backward_substitution(&bad)).is_ok()),
+                ("Matrix::cholesky_solve", catch(|| mk(&sq, n, n).cholesky_solve(&Vector::new(bad.clone()))).is_ok()), ("Matrix::lu_solve", catch(|| mk(&sq, n, n).lu_solve(&idp, &Vector::new(bad.clone()))).is_ok()),
+            ].iter().filter(|(_, ok)| *ok).map(|(f, _)| *f).collect();
+            if !accepted.is_empty() { out.push(Finding { class: "substitution:accepts-wrong-length-rhs".into(), what: format!("{:?} accepted a right-hand side of length {} for order {}", accepted, lb, n), input: format!("n={} len(b)={} t={}", n, lb, json_floats(&sq)) }); }
+        }
+        for len in [n * n + 1, n * n + n] {
+            let ns = vec![1.0; len];
+            *tried += 2; crumb(&format!("rejection: lu / cholesky of a slice of length {}", len));
+            if catch(|| lu(&ns)).is_ok() || catch(|| cholesky(&ns)).is_ok() { out.push(Finding { class: "factorisation:accepts-non-square-slice".into(), what: format!("lu or cholesky accepted a slice of length {}", len), input: format!("len={}", len) }); }
+        }
+    }}
 }
 
 pub fn oracle(tier: &str, seed: u64) -> (u64, Vec<Finding>) {
@@ -600,5 +1047,7 @@ pub fn oracle(tier: &str, seed: u64) -> (u64, Vec<Finding>) {
             if catch(|| lu(&ns)).is_ok() || catch(|| cholesky(&ns)).is_ok() { out.push(Finding { class: "factorisation:accepts-non-square-slice".into(), what: format!("lu or cholesky accepted a slice of length {}", ns.len()), input: format!("len={}", ns.len()) }); }
         }
     }
+    // (h) the sweep over every order 1..=32 x every class x every entry point (see oracle_sweep)
+    oracle_sweep(&mut out, &mut tried, &mut r, if thorough { 30 } else { 5 });
     (tried, out)
 }
